@@ -410,6 +410,7 @@ pub struct Stats {
     pub post_final_polls: u64,
     pub post_final_panics: u64,
     pub fires_in_drop: u64,
+    pub thread_rendezvous: u64,
 }
 impl Stats {
     pub fn fields(&self) -> Vec<(&'static str, u64)> {
@@ -460,6 +461,7 @@ impl Stats {
             ("thread_root_wakes_current", self.thread_root_wakes),
             ("thread_root_wakes_stale", self.thread_root_wakes_stale),
             ("thread_main_waits", self.thread_waits),
+            ("thread_polls_started_together_with_a_wake_call", self.thread_rendezvous),
             ("wait_until_streams_polled_on_after_none", self.polls_after_none),
             ("fires_from_child_destructors", self.fires_in_drop),
             ("vec_inputs_with_spare_capacity", self.vec_spare_capacity),
@@ -480,7 +482,7 @@ impl Stats {
             quiescent_checks, i1_obligations, i4_obligations, model_polls_checked, never_children,
             co_closure_calls, co_gauge_checks, co_errors, fairness_windows, thread_fires, thread_fires_stale,
             thread_root_wakes, thread_root_wakes_stale, thread_waits, polls_after_none, vec_spare_capacity,
-            post_final_polls, post_final_panics, fires_in_drop
+            post_final_polls, post_final_panics, fires_in_drop, thread_rendezvous
         );
         self.co_max_gauge = self.co_max_gauge.max(o.co_max_gauge);
     }
